@@ -76,6 +76,14 @@ macro_rules! dispatch {
                 let $p = props::c11::C11;
                 $body
             }
+            "C12" => {
+                let $p = props::c12::C12;
+                $body
+            }
+            "C13" => {
+                let $p = props::c13::C13;
+                $body
+            }
             "C14" => {
                 let $p = props::c14::C14;
                 $body
@@ -98,7 +106,7 @@ macro_rules! dispatch {
 
 fn dbg_share(id: &str) -> DbgShare {
     match id {
-        "C02" => DbgShare::Both,
+        "C02" | "C13" => DbgShare::Both,
         "C14" | "C16" => DbgShare::None,
         _ => DbgShare::Quarter,
     }
@@ -197,6 +205,19 @@ fn main() {
                     temps.push(e.bytecode().temps);
                 }
                 println!("n={} nupd_sel={} looped={} len={} fate={:?} steps={} temps={:?}", w.n, w.nupd_sel, w.looped, code.len(), r.fate, r.steps, temps);
+            }
+        }
+        "render" => {
+            // hv render <bits> <level> <program>: digest of everything printable (C13, fresh-process comparison)
+            exec::install_quiet_panic_hook();
+            let bits: u32 = args[2].parse().expect("bits");
+            let level: u32 = args[3].parse().expect("level");
+            match props::c13::render_digest(&args[4], bits, level) {
+                Ok(d) => println!("{d}"),
+                Err(e) => {
+                    eprintln!("{e}");
+                    std::process::exit(3)
+                }
             }
         }
         "mkcase" => {
